@@ -150,8 +150,11 @@ class FortranExpressionMapper(_CodegenStringifyMapper):
 
     def map_logical_not(self, expr, enclosing_prec):
         from pymbolic.mapper.stringifier import PREC_UNARY
+
+        # The operand is rendered one level up, so that a negation inside a
+        # negation gets parentheses: ".not. .not. x" is not valid Fortran.
         return self.parenthesize_if_needed(
-                ".not. " + self.rec(expr.child, PREC_UNARY),
+                ".not. " + self.rec(expr.child, PREC_POWER),
                 enclosing_prec, PREC_UNARY)
 
     def map_logical_or(self, expr, enclosing_prec):
